@@ -37,17 +37,37 @@ type Ctx struct {
 type Task struct {
 	Id     int   `json:"id"`
 	Hook   int   `json:"hook"`
-	Ty     int   `json:"ty"` // 0 = HookRun, 1 = EnableKubernetesBindings
+	Ty     int   `json:"ty"` // 0 = HookRun, 1 = EnableKubernetesBindings (class "op": EnableScheduleBindings)
 	NoMeta bool  `json:"nometa,omitempty"`
 	Ctxs   []Ctx `json:"ctxs"`
 	Mids   []int `json:"mids"`
+	// classes "set" and "op" only (the single-queue class uses one queue "main" and tasks that carry "main"):
+	Qn   int `json:"qn,omitempty"`   // the queue the task sits in (index into queueNames; 1 = "main")
+	Name int `json:"name,omitempty"` // the queue name the task CARRIES, GetQueueName() (0 = "")
 }
 
+// Step is one step of a session on the real operator (class "op").
+type Step struct {
+	Kind string `json:"kind"`           // head | validating | mutating | conversion | direct
+	Qn   int    `json:"qn,omitempty"`   // head: the queue whose worker runs
+	Hook int    `json:"hook,omitempty"` // webhook / direct: the hook
+	Name int    `json:"name,omitempty"` // direct: the queue name the task carries (webhook tasks carry "")
+	Id   int    `json:"id,omitempty"`   // webhook / direct: the id the task has in the model (the real one is a uuid)
+	Tag  int    `json:"tag,omitempty"`  // webhook / direct: the tag standing for the task's single binding context
+	Fail bool   `json:"fail,omitempty"` // the hook process exits 1
+}
+
+// Input: Kind "" = one queue handed to the function directly (T, Stop, Q, App);
+// "set" = a set of named queues, lookup by the executed task's name (T, Stop, Queues, Q with qn/name, App with qn);
+// "op" = a session on the real operator (Queues, Q, Steps).
 type Input struct {
-	T    Task   `json:"t"`
-	Stop []int  `json:"stop"`
-	Q    []Task `json:"q"`
-	App  []Task `json:"app"`
+	Kind   string `json:"kind,omitempty"`
+	T      Task   `json:"t"`
+	Stop   []int  `json:"stop"`
+	Q      []Task `json:"q"`
+	App    []Task `json:"app"`
+	Queues []int  `json:"queues,omitempty"`
+	Steps  []Step `json:"steps,omitempty"`
 }
 
 type Res struct {
@@ -60,6 +80,12 @@ type Res struct {
 type Observation struct {
 	Int Res `json:"internal"`
 	Exp Res `json:"exported"`
+	// class "set": ids of every queue of the set afterwards, in the order of Input.Queues
+	IntQueues [][]int `json:"internal_queues,omitempty"`
+	ExpQueues [][]int `json:"exported_queues,omitempty"`
+	// class "op"
+	Steps []StepObs `json:"steps,omitempty"`
+	Note  string    `json:"note,omitempty"`
 }
 
 var groups = []string{"", "a", "b"}
@@ -166,9 +192,18 @@ func runOne(in Input, exported bool) Res {
 	return res
 }
 
-// Run executes both real functions, each on a fresh copy of the layout.
+// Run executes both real functions, each on a fresh copy of the layout (classes "" and "set"),
+// or the session on the real operator (class "op").
 func Run(in Input) Observation {
 	os.Setenv("QUEUE_ACTIONS_METRICS", "no")
+	switch in.Kind {
+	case "set":
+		i, iq := runSet(in, false)
+		e, eq := runSet(in, true)
+		return Observation{Int: i, Exp: e, IntQueues: iq, ExpQueues: eq}
+	case "op":
+		return runOp(in)
+	}
 	return Observation{Int: runOne(in, false), Exp: runOne(in, true)}
 }
 
@@ -213,6 +248,12 @@ func wellFormed(in Input) (bool, string) {
 }
 
 func Render(in Input, obs *Observation, crash string) core.Case {
+	switch in.Kind {
+	case "set":
+		return renderSet(in, obs, crash)
+	case "op":
+		return renderOp(in, obs, crash)
+	}
 	var o Observation
 	if obs != nil {
 		o = *obs
@@ -224,7 +265,7 @@ func Render(in Input, obs *Observation, crash string) core.Case {
 	c.JSON = map[string]any{"internal": o.Int, "exported": o.Exp, "crash": crash}
 	c.Key = coqInput(in)
 	wf, why := wellFormed(in)
-	c.Tags = append(c.Tags, fmt.Sprintf("tasks:%02d", len(in.Q)))
+	c.Tags = append(c.Tags, "class:queue", fmt.Sprintf("tasks:%02d", len(in.Q)))
 	if wf {
 		c.Tags = append(c.Tags, "wellformed")
 		merged := len(in.Q) + len(in.App) - len(o.Int.Queue)
@@ -482,17 +523,23 @@ func exhaustive(maxLen int) []Input {
 }
 
 func Gen(r *core.Rng, tier string) ([]core.In[Input], bool) {
-	var ins []core.In[Input]
+	var corpus, ins []core.In[Input]
+	for _, c := range OpCorpus() {
+		corpus = append(corpus, core.In[Input]{Input: c, Stream: "corpus"})
+	}
+	for _, c := range SetCorpus() {
+		corpus = append(corpus, core.In[Input]{Input: c, Stream: "corpus"})
+	}
 	for _, c := range Corpus() {
-		ins = append(ins, core.In[Input]{Input: c, Stream: "corpus"})
+		corpus = append(corpus, core.In[Input]{Input: c, Stream: "corpus"})
 	}
 	g := &gen{r: r}
-	nRandom := 500
+	nRandom, nSet, nOp := 500, 600, 300
 	switch tier {
 	case "thorough":
-		nRandom = 20000
+		nRandom, nSet, nOp = 20000, 12000, 2000
 	case "search":
-		nRandom = 3000
+		nRandom, nSet, nOp = 3000, 3000, 600
 	}
 	for i := 0; i < nRandom; i++ {
 		if i%10 == 9 {
@@ -501,14 +548,43 @@ func Gen(r *core.Rng, tier string) ([]core.In[Input], bool) {
 			ins = append(ins, core.In[Input]{Input: g.layout(12, false), Stream: "random"})
 		}
 	}
+	for i := 0; i < nSet; i++ {
+		ins = append(ins, core.In[Input]{Input: g.setLayout(), Stream: "set"})
+	}
+	// the sessions run real hook processes: spread them evenly over the workers' chunks
+	var ops []core.In[Input]
+	for i := 0; i < nOp; i++ {
+		ops = append(ops, core.In[Input]{Input: g.opSession(), Stream: "op"})
+	}
+	if len(ops) > 0 {
+		var mixed []core.In[Input]
+		per := len(ins)/len(ops) + 1
+		k := 0
+		for i, in := range ins {
+			mixed = append(mixed, in)
+			if (i+1)%per == 0 && k < len(ops) {
+				mixed = append(mixed, ops[k])
+				k++
+			}
+		}
+		mixed = append(mixed, ops[k:]...)
+		ins = mixed
+	}
+	ins = append(corpus, ins...) // the corpus runs first
 	if tier == "thorough" {
 		for _, in := range exhaustive(5) {
 			ins = append(ins, core.In[Input]{Input: in, Stream: "exhaustive"})
+		}
+		for _, in := range exhaustiveSet(2) {
+			ins = append(ins, core.In[Input]{Input: in, Stream: "exhaustive-set"})
 		}
 	}
 	if tier == "search" {
 		for _, in := range exhaustive(4) {
 			ins = append(ins, core.In[Input]{Input: in, Stream: "exhaustive"})
+		}
+		for _, in := range exhaustiveSet(2) {
+			ins = append(ins, core.In[Input]{Input: in, Stream: "exhaustive-set"})
 		}
 	}
 	return ins, false
@@ -516,17 +592,25 @@ func Gen(r *core.Rng, tier string) ([]core.In[Input], bool) {
 
 var Driver = core.Driver[Input, Observation]{
 	Spec: core.Spec{Property: "C07", Imports: []string{"C07_Model", "C07_Spec", "C07_Corr"}, Corr: "C07_Corr", Triggers: nil, ShrinkKey: "q",
-		Rule: "queue layouts in real TaskQueue objects, the real combineBindingContextForHook and CombineBindingContextForHook each run on a fresh copy; " +
+		Rule: "class queue: queue layouts in real TaskQueue objects, the real combineBindingContextForHook and CombineBindingContextForHook each run on a fresh copy, the queue object handed over directly; " +
 			"streams: corpus, random (1-12 tasks, 1-3 hooks, 2 task types, 0-3 contexts per task with groups \"\",a,b repeated/interleaved, monitor ids, shuffled ids, " +
 			"12% with a stopCombineFn, 25% with 1-3 tasks appended between Iterate and Filter, emulated by two queue objects), malformed (executed task not at head / absent / duplicate ids / no metadata: model agreement only), " +
 			"exhaustive (thorough: head of hook 1/type 0 with contexts [\"\"],[a],[a a] followed by every sequence of <=4 tasks over 2 hooks x 2 types x 3 groups + a task without metadata); " +
-			"non-trivial = well-formed layout (C07_Spec.wf) with >=2 queued tasks; distinct = distinct input text"},
-	Gen: Gen, Run: Run, Render: Render, PerShard: 2000, Workers: 8, CaseTimout: 10 * time.Second,
+			"class set: a real TaskQueueSet of 1-4 named queues (main nearly always), 1-12 tasks spread over them, both functions called as taskHandleHookRun calls them, combine(tqs, tqs.GetByName(t.GetQueueName()), t, stop); " +
+			"the executed task carries \"\", main, another queue's name or a name no queue has and is the head of the queue it names (48%), in no queue with a name that points nowhere (28%: what the webhook handlers run), " +
+			"in no queue with an existing name (6%), in its queue but not at the head (6%), a head carrying another name (12%); 25% with 1-3 tasks arriving at any queue DURING the call (second GetMetadata call of a collected task), 12% stopCombineFn, 3% duplicate ids; " +
+			"exhaustive-set (thorough/search: queues main and qa with every pair of sequences of <=2 tasks over 2 hooks x {no group, group a}, executed task = either head or a queue-less task named \"\", no-such-queue, main, qa); " +
+			"class op: sessions of 1-4 steps on the real operator (task handler, admission event handler of initValidatingWebhookManager, conversionEventHandler, real bash hooks): 1-4 named queues with 2-8 tasks (HookRun with schedule contexts, 15% EnableScheduleBindings, 6% carrying a foreign or empty name), " +
+			"steps head-of-queue (harness plays the worker: GetFirst, Handler, Remove on Success) / validating / mutating / conversion request / queue-less task with name \"\" or unknown handed to taskHandler, 25% of the hook runs exit 1; " +
+			"non-trivial = well-formed (unique ids) with >=2 queued tasks (class op: and >=1 step); distinct = distinct input text"},
+	Gen: Gen, Run: Run, Render: Render, PerShard: 150, Workers: 8, CaseTimout: 20 * time.Second,
 	Extra: func() map[string]any {
 		return map[string]any{
-			"concurrent_appends": "emulated: Iterate runs on a queue object holding the layout, Filter on a second registered queue object holding layout ++ appended (same task objects); no goroutines",
-			"exhaustive_scope":   "thorough: 3 head shapes x sum_{k<=4} 13^k = 92823 layouts of <=5 tasks",
-			"not_driven":         "the gate in front of the call (operator.go:564-573: v1 hook, hook is run, not an ungrouped kubernetes Synchronization) is outside the driven function",
+			"concurrent_appends": "class queue: emulated, Iterate runs on a queue object holding the layout, Filter on a second registered queue object holding layout ++ appended (same task objects), no goroutines; " +
+				"class set: real arrivals during the call (AddLast from the second GetMetadata call on a collected task, i.e. after Iterate, outside every lock, before Filter)",
+			"exhaustive_scope": "thorough: 3 head shapes x sum_{k<=4} 13^k = 92823 layouts of <=5 tasks; set: 21 x 21 queue pairs x up to 6 executed tasks",
+			"not_driven": "class queue/set: the gate in front of the call (operator.go:564-573: v1 hook, hook is run, not an ungrouped kubernetes Synchronization) is outside the driven function; class op drives it with schedule-typed contexts (gate open, stopCombineFn nil); " +
+				"a webhook run arriving WHILE a worker is inside the hook process of the head is not driven (after the head's combine the queue is [head(merged), rest], the state a failed head leaves: that state is driven)",
 		}
 	},
 }
